@@ -2,7 +2,7 @@
 EXTENDS MCResolver, Json
 VARIABLE hist
 GInit == MCInit /\ hist = <<>>
-GNext == MCNext /\ hist' = IF sched'.a \in {"host", "lit", "cancel"} THEN Append(hist, sched') ELSE hist
+GNext == MCNext /\ hist' = IF sched'.a \in {"host", "lit", "cancel", "destroy"} THEN Append(hist, sched') ELSE hist
 GSpec == GInit /\ [][GNext]_<<mvars, hist>>
 Emit == (Quiescent /\ budget = 0) => PrintT(<<"TR", ToJson([conf |-> conf, ops |-> hist])>>)
 =============================================================================
